@@ -47,6 +47,13 @@ CONFIGS = {
     "MD041": [("default", [], {"level": 1}), ("level=2", ["plugins.md041.level=$#2"], {"level": 2})],
     "MD022": [("default", [], {})],
     "MD023": [("default", [], {})],
+    "MD004": [("default", [], {"style": "consistent"}), ("dash", ["plugins.md004.style=dash"], {"style": "dash"}), ("asterisk", ["plugins.md004.style=asterisk"], {"style": "asterisk"}),
+              ("plus", ["plugins.md004.style=plus"], {"style": "plus"}), ("sublist", ["plugins.md004.style=sublist"], {"style": "sublist"})],
+    "MD018": [("default", [], {})],
+    "MD031": [("default", [], {})],
+    "MD032": [("default", [], {})],
+    "MD042": [("default", [], {})],
+    "MD045": [("default", [], {})],
 }
 FAMILIES = {
     "headings-long": "# " + "word " * 9 + "end\n\n## " + "word " * 12 + "\n\ntext\n\nSetext heading that is quite long indeed here\n===\n\n" + "w" * 85 + "\n",
@@ -59,6 +66,11 @@ FAMILIES = {
     "atx-spacing": "#  two\n\n##\ttab\n\n###   three ###\n\n #  indented two\n\n> ##  in quote\n",
     "nofinal": "# T\n\nlast line",
     "trailing": "# T \n\ntext  \nmore   \n\n- item \n  \n  cont\n\n    code   \n",
+    "ul-markers": "# T\n\n+ a\n+ b\n\ntext\n\n- c\n  * d\n  * e\n\ntext\n\n* f\n  + g\n",
+    "missing-space": "# T\n\n#Heading\n\n##Two words\n\n####### seven\n\n#######Seven\n\ntext\n#Inside\n\n> #Quote\n\n- #Item\n\n#Closed#\n\n#Em *x*\n",
+    "fence-blanks": "# T\n\ntext\n```text\na\n```\nmore\n\n```text\nb\n```\n\ntext\n\n```text\nc\n```\n# H\n",
+    "list-blanks": "# T\n\ntext\n- a\n- b\n\ntext\n\n1. x\n2. y\n# H\n\n- c\n\ntext\n* d\n",
+    "links": "# T\n\n[empty]() and [frag](#) and [ok](/a) and [ok2](#x)\n\n![img]() ![](/u) ![ ](/v) ![alt](/w)\nnext [e]( ) line\n\n[ref][r] ![][r]\n\n[r]: /url\n",
 }
 
 
@@ -76,7 +88,7 @@ def _doc(job):
         return {"skip": "renderer-error"}
     if a.get("tree") is None or a["tree"] != mdit:
         return {"skip": "structure-not-agreed"}          # precondition C03
-    L, B = rulefacts.facts(text)
+    L, B, I = rulefacts.facts(text)
     out = []
     for rule, cname, setargs, cfg in runs_:
         argv = []
@@ -100,7 +112,7 @@ def _doc(job):
             # a rule may name any line of a (setext) heading: compare by the heading's first line
             lines = {next((b["ln"] for b in B if b["k"] == "h" and b["ln"] <= x <= b["endln"]), x) for x in lines}
         out.append((rule, cname, sorted(lines)))
-    return {"L": L, "B": B, "obs": out}
+    return {"L": L, "B": B, "I": I, "obs": out}
 
 
 def run(pid, tier):
@@ -138,7 +150,7 @@ def run(pid, tier):
             if lines is None:
                 skips["scan-failed"] = skips.get("scan-failed", 0) + 1
                 continue
-            traces.append([{"rule": rule, "cfg": cfg or {"none": 0}, "L": o["L"], "B": o["B"], "observed": lines}])
+            traces.append([{"rule": rule, "cfg": cfg or {"none": 0}, "L": o["L"], "B": o["B"], "I": o["I"] if rule in ("MD042", "MD045") else [], "observed": lines}])
             meta.append((name, text, rule, cname))
     verdicts = []
     for ci in range(0, len(traces), 6000):
@@ -158,8 +170,8 @@ def run(pid, tier):
     ctx.ev.cov["distinct_nontrivial"] = nontriv
     ctx.ev.parts["documents_not_judged"] = skips
     ctx.ev.parts["rules_judged"] = sorted(CONFIGS)
-    ctx.ev.cov["rule"] = ("(document, rule, configuration) triples: rule families, rule resources, fixed generated / systematic pools x 13 rules x documented configuration values; "
-                          "judged only where the implementation's block structure equals markdown-it's; non-trivial = triples with at least one reported line")
+    ctx.ev.cov["rule"] = ("(document, rule, configuration) triples: rule families, rule resources, fixed generated / systematic pools x %d rules x documented configuration values; "
+                          "judged only where the implementation's block structure equals markdown-it's; non-trivial = triples with at least one reported line" % len(CONFIGS))
     if traces:
         ctx.ev.sample({"document": meta[0][0], "rule": meta[0][2], "config": meta[0][3], "reported_lines": traces[0][0]["observed"]})
     return ctx
